@@ -39,6 +39,7 @@ type Unit struct {
 	Kind  string `json:"kind"`
 	Index int    `json:"index"`
 	Name  string `json:"name"`
+	Bin   string `json:"bin,omitempty"` // "" = engine, "sp" = engine built with status points
 }
 
 // UnitResult is what a worker reports
@@ -208,7 +209,11 @@ func runPool(units []Unit, procs int) []UnitResult {
 			for i := range ch {
 				u := units[i]
 				b, _ := json.Marshal(u)
-				cmd := exec.Command(self, "unit", string(b))
+				bin := self
+				if u.Bin == "sp" {
+					bin = filepath.Join(verifDir, ".cache", "bin", "engine-sp")
+				}
+				cmd := exec.Command(bin, "unit", string(b))
 				cmd.Env = append(os.Environ(), "GOMAXPROCS=2")
 				if race {
 					cmd.Env = append(cmd.Env, "GOMAXPROCS=1")
